@@ -8,3 +8,5 @@ import UxVerif.Props.C02
 import UxVerif.Model.Incidence
 import UxVerif.Lemmas.Keyed
 import UxVerif.Props.C03
+import UxVerif.Model.Aggregate
+import UxVerif.Props.C17
